@@ -547,3 +547,111 @@ def check_stereo_latency(prog: Program, res: Result) -> None:
                     "first refined array is blind to double-bond geometry, "
                     "and _color_refine may stop right there: hash((E)-"
                     "FHC=CHF) == hash((Z)-FHC=CHF)", instance=inst)
+
+
+# ---------------------------------------------------------------------------
+def check_refine_progress(prog: Program, res: Result) -> None:
+    res.rule("R-REFINE-PROGRESS", "a refinement generator may repeat an "
+             "unrefined colour array forever only when the graph has nothing "
+             "to aggregate (no atoms / no bonds); a shortcut that depends on "
+             "the colours themselves (e.g. 'already discrete') freezes the "
+             "hash at the element multiset")
+    for fname in ("morgan_generator", "stereo_morgan_generator"):
+        fi = _fn(prog, fname)
+        n = 0
+        for loop in ast.walk(fi.node):
+            if not isinstance(loop, (ast.While, ast.For)):
+                continue
+            ys = [y for y in ast.walk(loop) if isinstance(y, ast.Yield)]
+            if not ys:
+                continue
+            n += 1
+            updates = [x for x in ast.walk(loop)
+                       if isinstance(x, ast.Assign)
+                       and isinstance(x.targets[0], ast.Subscript)
+                       and norm(x.targets[0].value) == "atom_hash"]
+            inst = f"{fi.short}: yield loop at line {loop.lineno}"
+            if updates:
+                res.ok("R-REFINE-PROGRESS", inst, fi.loc(loop), "refines")
+                continue
+            guards = [norm(a.test) for a in ancestors(loop)
+                      if isinstance(a, ast.If)]
+            structural = [g for g in guards if re.fullmatch(
+                r"(len\(\w+\.bonds\) == 0|n_atoms == 0|not \w+\.bonds|"
+                r"len\(\w+\.atoms\) == 0)", g)]
+            if structural and len(structural) == len(guards):
+                res.ok("R-REFINE-PROGRESS", inst, fi.loc(loop),
+                       f"structural guard {structural}")
+            else:
+                res.bad("R-REFINE-PROGRESS",
+                        f"{fi.short}: unrefined yield loop under {guards}",
+                        fi.loc(loop),
+                        f"{fi.short}: yields the unrefined colours forever "
+                        f"under `{' and '.join(guards) or 'no condition'}`; "
+                        "graphs that satisfy it hash to the multiset of "
+                        "their initial colours (HCN and HNC collide, a "
+                        "reaction and its reverse collide)", instance=inst)
+        res.need("R-REFINE-PROGRESS", n, 1, f"yield loops in {fname}")
+    # early `return` in a generator after the first yield ends refinement
+    for fname in ("morgan_generator", "stereo_morgan_generator"):
+        fi = _fn(prog, fname)
+        for r in ast.walk(fi.node):
+            if isinstance(r, ast.Return):
+                guards = [norm(a.test) for a in ancestors(r)
+                          if isinstance(a, ast.If)]
+                inst = f"{fi.short}: early return under {guards}"
+                if guards and all(re.fullmatch(
+                        r"(n_atoms == 0|len\(\w+\.atoms\) == 0)", g)
+                        for g in guards):
+                    res.ok("R-REFINE-PROGRESS", inst, fi.loc(r))
+                else:
+                    res.bad("R-REFINE-PROGRESS", inst, fi.loc(r),
+                            f"{fi.short}: the generator ends under "
+                            f"`{guards}`; _color_refine's next() then raises "
+                            "StopIteration / refinement is cut short")
+
+
+# ---------------------------------------------------------------------------
+def check_final_hash(prog: Program, res: Result) -> None:
+    res.rule("R-HASH-ONLY-COLOURS", "the graph hash is the multiset hash of "
+             "exactly the refined colour array: nothing else (raw parities, "
+             "identifiers, counts) is mixed in, and a descriptor's parity is "
+             "only ever used inside the normalising comparisons")
+    for k in ("mg", "smg", "crg", "scrg"):
+        fi = _fn(prog, f"color_refine_hash_{k}")
+        du = DefUse(fi.node)
+        rets = [r for r in ast.walk(fi.node) if isinstance(r, ast.Return)]
+        inst = f"{fi.short}: int(multiset hash of color_refine_{k}(graph))"
+        ok = False
+        why = "return form not recognised"
+        if len(rets) == 1:
+            v = rets[0].value
+            if isinstance(v, ast.Call) and call_name(v) == "int" and v.args \
+                    and isinstance(v.args[0], ast.Call) and call_name(
+                    v.args[0]) == MSET_H and len(v.args[0].args) == 1:
+                a = v.args[0].args[0]
+                defs = du.defs.get(a.id, []) if isinstance(a, ast.Name) else [a]
+                if len(defs) == 1 and isinstance(defs[0], ast.Call) and \
+                        call_name(defs[0]) == f"color_refine_{k}":
+                    ok = True
+                else:
+                    why = (f"`{norm(a)}` is fed by "
+                           f"{[norm(d, 60) for d in defs]}")
+        if ok:
+            res.ok("R-HASH-ONLY-COLOURS", inst, fi.loc())
+        else:
+            res.bad("R-HASH-ONLY-COLOURS", f"{fi.short}: hashed data",
+                    fi.loc(), f"{inst}: {why}; data that is not a refined "
+                    "colour (e.g. raw parities) makes (ordering, parity) and "
+                    "(mirrored ordering, opposite parity) hash differently",
+                    instance=inst)
+    mod = prog.module(MOD)
+    for node in ast.walk(mod.tree):
+        if isinstance(node, ast.Attribute) and node.attr == "parity":
+            par = parent(node)
+            inst = f"color_refine: `{norm(par, 60)}`"
+            if isinstance(par, ast.Compare):
+                res.ok("R-HASH-ONLY-COLOURS", inst, mod.loc(node))
+            else:
+                res.bad("R-HASH-ONLY-COLOURS", inst, mod.loc(node),
+                        f"raw parity value used in `{norm(par, 80)}`")
